@@ -65,6 +65,16 @@ def poly_case(ck, c):
             got_far = sp.path_encloses_pt(far(pt), far(opt), sp.polygon(*[far(w) for w in pts]))
         except Exception as e:      # noqa
             got_far = e
+        # the same outline spelled with straight quadratics (control point at the midpoint of each side: exact) - the same point set, the same parity
+        try:
+            pq = sp.Path(*[sp.QuadraticBezier(a_, (a_ + b_) / 2, b_) for a_, b_ in zip(pts, pts[1:] + pts[:1])])
+            got_q = sp.path_encloses_pt(pt, opt, pq)
+        except Exception as e:      # noqa
+            got_q = e
+        if got_q is not pr['inside'] and got is pr['inside']:
+            ck.disagree(key='path_encloses_pt/outline-of-straight-quadratics', site='svgpathtools/path.py:path_encloses_pt/bezier_by_line_intersections',
+                        what='polygon %s drawn with straight quadratics: path_encloses_pt(%r) = %r, crossing parity says %r' % (pts, pt, got_q, pr['inside']),
+                        case={'poly': c['poly'], 'probe': pr['p'], 'quadratics': True}, expected=pr['inside'], observed=repr(got_q), driver='enclosure')
         if got_far is not pr['inside'] and got is pr['inside']:
             ck.disagree(key='path_encloses_pt/far-from-origin', site='svgpathtools/path.py:path_encloses_pt/Path.intersect',
                         what='polygon %s scaled by 0.01 and moved to 4000+3000j: path_encloses_pt = %r, crossing parity says %r' % (pts, got_far, pr['inside']),
@@ -86,6 +96,24 @@ def poly_case(ck, c):
             got = inner.is_contained_by(p)
         except Exception as e:      # noqa
             got = e
+        # a history on the outer path: queried (bbox, containment), then its closing vertex is moved far away through Path.start / Path.end,
+        # queried again: the answer must be the one a newly built Path of the same segments gives
+        if not isinstance(got, Exception) and len(pts) >= 3:
+            try:
+                outer = sp.polygon(*pts)
+                outer.bbox(), inner.is_contained_by(outer)
+                far_v = pts[0] + (-40 - 55j)
+                outer.start = far_v
+                outer.end = far_v
+                h_got = inner.is_contained_by(outer)
+                h_exp = inner.is_contained_by(sp.Path(*[sp.Line(sg_.start, sg_.end) for sg_ in outer]))
+                h_box, f_box = outer.bbox(), sp.Path(*[sp.Line(sg_.start, sg_.end) for sg_ in outer]).bbox()
+            except Exception as e:      # noqa
+                h_got, h_exp, h_box, f_box = e, None, None, None
+            if isinstance(h_got, Exception) or h_got != h_exp or tuple(h_box) != tuple(f_box):
+                ck.disagree(key='is_contained_by/after-moving-the-closing-vertex-of-the-outer-path', site='svgpathtools/path.py:Path.is_contained_by/bbox',
+                            what='polygon %s: bbox(); is_contained_by; outer.start = outer.end = %r; is_contained_by = %r (bbox %r), a newly built path answers %r (bbox %r)' % (
+                                pts, pts[0] + (-40 - 55j), h_got, h_box, h_exp, f_box), case={'poly': c['poly'], 'd': d, 'history': True}, expected=repr(h_exp), observed=repr(h_got), driver='containment')
         if got is not exp_c and got != exp_c:
             ck.disagree(key='is_contained_by/%s' % ('raises' if isinstance(got, Exception) else ('crossing' if cd['crosses'] else 'enclosure')),
                         site='svgpathtools/path.py:Path.is_contained_by', what='triangle shifted by %s is_contained_by(polygon %s) = %r, model: crosses=%s inside=%s' % (
@@ -138,6 +166,17 @@ def arc_cases(ck):
                 got = p.area(chord_length=chord)
             except Exception as e:      # noqa
                 got = e
+            # a negative uniform factor is a half turn and a dilation: determinant s^2 > 0, the orientation stays
+            if not isinstance(got, Exception):
+                for sfac in (-1, -2.0):
+                    try:
+                        gs = p.scaled(sfac).area(chord_length=chord * abs(sfac))
+                    except Exception as e:      # noqa
+                        gs = e
+                    if isinstance(gs, Exception) or not (abs(gs - sfac * sfac * exp) <= sfac * sfac * bound):
+                        ck.disagree(key='Path.area/arcs-scaled-by-a-negative-factor', site='svgpathtools/path.py:scale', what='ellipse (%s) sweep=%s scaled(%r): area %r, expected %r' % (
+                            (cx, cy, rx, ry, rot), sweep, sfac, gs, sfac * sfac * exp), case={'ellipse': [cx, cy, rx, ry, rot], 'sweep': sweep, 'factor': sfac}, expected=sfac * sfac * exp, observed=repr(gs), driver='arcs')
+                        break
             if isinstance(got, Exception) or not (abs(got - exp) <= bound) or (got > 0) != sweep:
                 ck.disagree(key='Path.area/arcs', site='svgpathtools/path.py:Path.area', what='ellipse (%s) sweep=%s: area %r, pi rx ry = %r (chord bound %g)' % (
                     (cx, cy, rx, ry, rot), sweep, got, exp, bound), case={'ellipse': [cx, cy, rx, ry, rot], 'sweep': sweep}, expected=exp, observed=repr(got), driver='arcs')
